@@ -76,6 +76,16 @@ def lean_lock():
             fcntl.flock(f, fcntl.LOCK_UN)
 
 
+Timeout = subprocess.TimeoutExpired
+
+
+def short_tb(e):
+    """one-line summary of an exception raised while driving the implementation: type, message, innermost frames"""
+    import traceback
+    fr = traceback.extract_tb(e.__traceback__)[-3:]
+    return f"{type(e).__name__}: {str(e)[:160]} @ " + " <- ".join(f"{os.path.basename(f.filename)}:{f.lineno}" for f in reversed(fr))
+
+
 def run(cmd, cwd=None, timeout=None, input=None):
     p = subprocess.run(cmd, cwd=cwd, capture_output=True, text=True, timeout=timeout, input=input)
     return p.returncode, p.stdout, p.stderr
